@@ -1,1 +1,162 @@
-//! C10 harnesses (not written yet).
+//! C10 — equal vectors hash equally (Hash is consistent with Eq), within each type.
+//!
+//! Oracle: a *recording* `Hasher` logs every call the `Hash` impl makes (which `write_*`
+//! method, with which value, in which order). For two vectors `a`, `b` of the same type whose
+//! model values are equal (`val(a) == val(b)`, assumed on the raw storage returned by the
+//! generators, *not* through the crate's `==`; C09 shows that this is exactly when `a == b`)
+//! the two logs must be identical. Every `Hasher` is a function of that call sequence, so
+//! identical logs give identical `finish()` for every hasher, hence the HashMap/HashSet
+//! consequence (stated, not re-verified: std's SipHash is not re-executed symbolically).
+//! Lengths of the two operands are independent (equal and different), Bvd/Bv operands have
+//! different numbers of allocated words (spare capacity), Bv is taken in all mode pairs.
+use crate::big::Big;
+use crate::nd;
+use crate::scopes::*;
+use bva::{Bit, BitVector, Bv, Bvd, Bvf};
+use std::hash::{Hash, Hasher};
+
+const K: usize = 6;
+
+#[derive(Clone, Copy, PartialEq, Eq)]
+struct Ev {
+    /// 1..=6: write_u8/u16/u32/u64/u128/usize; 7: length of a raw `write`; 8: its first 16 bytes.
+    kind: u8,
+    val: u128,
+}
+
+/// Loop-free recording hasher with room for `K` events.
+struct Rec {
+    ev: [Ev; K],
+    n: usize,
+    overflow: bool,
+}
+
+impl Rec {
+    #[inline(always)]
+    fn new() -> Rec {
+        Rec { ev: [Ev { kind: 0, val: 0 }; K], n: 0, overflow: false }
+    }
+    #[inline(always)]
+    fn push(&mut self, kind: u8, val: u128) {
+        if self.n < K {
+            self.ev[self.n] = Ev { kind, val };
+            self.n += 1;
+        } else {
+            self.overflow = true;
+        }
+    }
+    /// Same call sequence (unused slots are zero in both).
+    #[inline(always)]
+    fn same(&self, o: &Rec) -> bool {
+        self.n == o.n
+            && self.ev[0] == o.ev[0]
+            && self.ev[1] == o.ev[1]
+            && self.ev[2] == o.ev[2]
+            && self.ev[3] == o.ev[3]
+            && self.ev[4] == o.ev[4]
+            && self.ev[5] == o.ev[5]
+    }
+}
+
+impl Hasher for Rec {
+    fn finish(&self) -> u64 {
+        0
+    }
+    fn write(&mut self, bytes: &[u8]) {
+        // raw byte writes (not used by integer `Hash` impls today): length + first 16 bytes
+        let g = |i: usize| -> u128 { (if i < bytes.len() { bytes[i] } else { 0 }) as u128 };
+        let lo = g(0) | g(1) << 8 | g(2) << 16 | g(3) << 24 | g(4) << 32 | g(5) << 40 | g(6) << 48 | g(7) << 56;
+        let hi = g(8) | g(9) << 8 | g(10) << 16 | g(11) << 24 | g(12) << 32 | g(13) << 40 | g(14) << 48 | g(15) << 56;
+        if bytes.len() > 16 {
+            self.overflow = true;
+        }
+        self.push(7, bytes.len() as u128);
+        self.push(8, lo | hi << 64);
+    }
+    fn write_u8(&mut self, i: u8) {
+        self.push(1, i as u128)
+    }
+    fn write_u16(&mut self, i: u16) {
+        self.push(2, i as u128)
+    }
+    fn write_u32(&mut self, i: u32) {
+        self.push(3, i as u128)
+    }
+    fn write_u64(&mut self, i: u64) {
+        self.push(4, i as u128)
+    }
+    fn write_u128(&mut self, i: u128) {
+        self.push(5, i)
+    }
+    fn write_usize(&mut self, i: usize) {
+        self.push(6, i as u128)
+    }
+}
+
+macro_rules! hash_body {
+    ($a:expr, $b:expr, $spare:literal) => {
+        let (a, ra) = $a;
+        let (b, rb) = $b;
+        // equal as numbers (the shorter one zero-extended): this is `a == b` by C09
+        nd::assume(ra.v == rb.v);
+        w!(ra.len != rb.len && !ra.v.is_zero(), "equal non-zero values of different lengths");
+        w!(ra.v.is_zero() && ra.len == 0 && rb.len > 0, "empty vector against a longer all-zero vector");
+        w!(ra.len == rb.len && !ra.v.is_zero(), "equal non-zero values of the same length");
+        w!(ra.len > 0 && ra.v.sig() == ra.len && rb.len > ra.len, "top bit of the shorter operand set");
+        w!((ra.cap != rb.cap) == $spare && !ra.v.is_zero(), "non-zero value; storage sizes differ iff the pairing has different allocations");
+        let mut ha = Rec::new();
+        let mut hb = Rec::new();
+        a.hash(&mut ha);
+        b.hash(&mut hb);
+        assert!(!ha.overflow && !hb.overflow, "HARNESS: recording hasher overflowed");
+        assert!(ha.n > 0, "C10: nothing was hashed");
+        assert!(ha.same(&hb), "C10: equal values feed different data to the Hasher");
+    };
+}
+
+/// Both operands have the same storage size.
+macro_rules! h_hash {
+    ($name:ident, $unw:literal, $a:expr, $b:expr) => {
+        harness!($name, $unw, {
+            hash_body!($a, $b, false);
+        });
+    };
+}
+
+/// Heap-backed / auto vectors whose storage sizes differ (spare words on one side).
+macro_rules! h_hash_heap {
+    ($name:ident, $unw:literal, $a:expr, $b:expr) => {
+        harness!($name, $unw, {
+            hash_body!($a, $b, true);
+        });
+    };
+}
+
+// ---- Bvf ---------------------------------------------------------------------------------
+h_hash!(c10_q_hash_f8x2, 4, f8x2(anylen(16)), f8x2(anylen(16)));
+h_hash!(c10_q_hash_f8x3, 5, f8x3(anylen(24)), f8x3(anylen(24)));
+h_hash!(c10_q_hash_f16x2, 4, f16x2(anylen(32)), f16x2(anylen(32)));
+h_hash!(c10_q_hash_f64x2, 4, f64x2(anylen(128)), f64x2(anylen(128)));
+h_hash!(c10_q_hash_f64x3, 5, f64x3(anylen(192)), f64x3(anylen(192)));
+h_hash!(c10_t_hash_f8x4, 6, f8x4(anylen(32)), f8x4(anylen(32)));
+h_hash!(c10_t_hash_f16x1, 3, f16x1(anylen(16)), f16x1(anylen(16)));
+h_hash!(c10_t_hash_f32x2, 4, f32x2(anylen(64)), f32x2(anylen(64)));
+h_hash!(c10_t_hash_fuszx2, 4, fuszx2(anylen(128)), fuszx2(anylen(128)));
+h_hash!(c10_t_hash_f128x2, 4, f128x2(anylen(256)), f128x2(anylen(256)));
+
+// ---- Bvd: different numbers of allocated words (spare capacity) ------------------------------
+h_hash_heap!(c10_q_hash_bvd1_bvd2, 4, bvd1(anylen(64)), bvd2(anylen(128)));
+h_hash_heap!(c10_q_hash_bvd2_bvd3, 5, bvd2(anylen(128)), bvd3(anylen(192)));
+h_hash!(c10_q_hash_bvd3_bvd3, 5, bvd3(anylen(192)), bvd3(anylen(192)));
+h_hash_heap!(c10_q_hash_bvd3_bvd1, 5, bvd3(anylen(192)), bvd1(anylen(64)));
+h_hash_heap!(c10_t_hash_bvd4_bvd2, 6, bvd4(anylen(256)), bvd2(anylen(128)));
+h_hash!(c10_t_hash_bvd2_bvd2, 4, bvd2(anylen(128)), bvd2(anylen(128)));
+
+// ---- Bv: all storage mode pairs --------------------------------------------------------------
+h_hash!(c10_q_hash_bvfix_bvfix, 4, bvfix(anylen(128)), bvfix(anylen(128)));
+h_hash!(c10_q_hash_bvfix_bvdyn2, 4, bvfix(anylen(128)), bvdyn2(anylen(128)));
+h_hash_heap!(c10_q_hash_bvfix_bvdyn3, 5, bvfix(anylen(128)), bvdyn3(anylen(192)));
+h_hash_heap!(c10_q_hash_bvdyn1_bvfix, 4, bvdyn1(anylen(64)), bvfix(anylen(128)));
+h_hash_heap!(c10_q_hash_bvdyn2_bvdyn3, 5, bvdyn2(anylen(128)), bvdyn3(anylen(192)));
+h_hash_heap!(c10_t_hash_bvdyn3_bvdyn1, 5, bvdyn3(anylen(192)), bvdyn1(anylen(64)));
+h_hash!(c10_t_hash_bvdyn2_bvdyn2, 4, bvdyn2(anylen(128)), bvdyn2(anylen(128)));
